@@ -109,7 +109,7 @@
  "name": "ht_dx_lookup_64",
  "props": ["C10"],
  "level": "U/k",
- "tier": "quick",
+ "tier": "thorough",
  "harness": "h_lookup",
  "defines": ["HX_BS=64", "EXT2_CUSTOM_MEMORY_ROUTINES"],
  "sources": ["lib/ext2fs/csum.c"],
